@@ -315,6 +315,11 @@ def solute_already_present_is_counted(ctx, rule):
         hit = keyed_read(fi.node, operand, 'solute')
         how = 'read directly' if hit is not None else None
         if hit is None:
+            # private helpers are expanded in the main model (arguments substituted for parameters): a helper that is
+            # handed the operand and the solute shows the read in place
+            hit = keyed_read(ctx.model.func('Container.create_solution_from').node, operand, 'solute')
+            how = 'read in an expanded helper' if hit is not None else None
+        if hit is None:
             for c in ast.walk(fi.node):
                 if isinstance(c, ast.Call) and isinstance(c.func, ast.Attribute) and isinstance(c.func.value, ast.Name) and \
                         c.func.value.id == operand and plain.has_func(f"Container.{c.func.attr}"):
